@@ -762,10 +762,15 @@ class RecorderK(Kind):
         self.name = name
 
     def build(self, ctx, mk):
-        return Recorder(self.name)
+        r = Recorder(self.name)
+        ctx.__dict__.setdefault("recorders", []).append(r)  # the recorded callables of this path (ghost builtins inspect them)
+        return r
 
     def sort(self):
         raise EngineLimit("RecorderK has no single sort")
+
+    def __repr__(self):
+        return "recorded-%s" % self.name
 
 
 class TupleK(Kind):
